@@ -43,9 +43,9 @@ Print Assumptions C01_partial_parameter_record.
 Theorem C01_partial_group_record : forall g old st r,
   wf_group_hdr g -> st_fail st = false ->
   st_rest st = upper (g_name g) ++ le_bytes 2 (3 + zlen (g_desc g))%Z ++ [low8 (zlen (g_desc g))] ++ g_desc g ++ r ->
-  g_desc g <> [] \/ g_desc old = [] ->
-  exists nxt, read_group old (hex2int [name_len_byte (g_name g) (g_lock g)]) st =
-    Ok ((mkGroup (upper (g_name g)) (g_desc g) (g_lock g) (g_params old), nxt),
+  read_group old (hex2int [name_len_byte (g_name g) (g_lock g)]) st =
+    Ok ((mkGroup (upper (g_name g)) (desc_after g old) (g_lock g) (g_params old),
+         wrap32s (Z.of_N (st_pos st + N.of_nat (length (g_name g)) + 2) + (3 + zlen (g_desc g)) - 2)),
         adv st (length (g_name g) + 2 + (1 + length (g_desc g))) r).
 Proof. exact read_group_written. Qed.
 Print Assumptions C01_partial_group_record.
